@@ -62,6 +62,8 @@ def jobs(tier):
                     if cov and step == 2:
                         continue
                     out.append({"ob": "O1", "cfg": {"fn": "stab_plot", "shape": list(shp), "hide": hide, "step": step, "cov": cov}})
+            # non-default ordmin only restricts the axis range: markers stay at column*step
+            out.append({"ob": "O1", "cfg": {"fn": "stab_plot", "shape": list(shp), "hide": hide, "step": 1, "cov": False, "ordmin": 1}})
             out.append({"ob": "O2", "cfg": {"fn": "cluster_plot", "shape": list(shp), "hide": hide}})
     for n, nf in (((2, 3), (3, 3)) if tier == "quick" else ((2, 3), (3, 3), (3, 4))):
         for nsv in ["all"] + list(range(1, n)):
@@ -72,6 +74,8 @@ def jobs(tier):
             if meth == "plot_CMIF" and not hide:
                 continue
             out.append({"ob": "O4", "cfg": {"cls": cls, "meth": meth, "shape": [2, 3], "hide": hide}})
+            if meth == "plot_stab":
+                out.append({"ob": "O4", "cfg": {"cls": cls, "meth": meth, "shape": [2, 3], "hide": hide, "ordmin": 1}})
     return out
 
 
@@ -171,8 +175,8 @@ def run_poles(cfg, tier, ob):
             for j in range(C):
                 Explorer.cur.assume(z3.Or(T["Lab"][i, j].v == 0, T["Lab"][i, j].v == 1))
         if ob == "O1":
-            return tp.stab_plot(T["Fn"], T["Lab"], cfg["step"], C - 1, ordmin=0, freqlim=(0, 10), hide_poles=cfg["hide"],
-                                Fn_cov=T["Fn_cov"])
+            return tp.stab_plot(T["Fn"], T["Lab"], cfg["step"], C - 1, ordmin=cfg.get("ordmin", 0), freqlim=(0, 10),
+                                hide_poles=cfg["hide"], Fn_cov=T["Fn_cov"])
         if ob == "O2":
             return tp.cluster_plot(T["Fn"], T["Xi"], T["Lab"], ordmin=0, freqlim=None, hide_poles=cfg["hide"])
 
@@ -180,7 +184,7 @@ def run_poles(cfg, tier, ob):
             pass
         res, rp = _O(), _O()
         res.Fn_poles, res.Xi_poles, res.Lab, res.Fn_poles_cov = T["Fn"], T["Xi"], T["Lab"], None
-        rp.step, rp.ordmax, rp.ordmin = 1, C - 1, 0
+        rp.step, rp.ordmax, rp.ordmin = 1, C - 1, cfg.get("ordmin", 0)
         alg = W.carrier(getattr(assi if cfg["cls"].startswith("SSI") else aplscf, cfg["cls"]), result=res, run_params=rp, name="a")
         return getattr(alg, cfg["meth"])(freqlim=None, hide_poles=cfg["hide"])
 
@@ -239,7 +243,7 @@ def replay_poles(cfg, ob, inputs):
     name = cfg.get("fn") or f"{cfg['cls']}.{cfg['meth']}"
     try:
         if ob == "O1":
-            fig, ax = plot.stab_plot(Fn, Lab, step, C - 1, ordmin=0, freqlim=(0, 10), hide_poles=cfg["hide"], Fn_cov=cov)
+            fig, ax = plot.stab_plot(Fn, Lab, step, C - 1, ordmin=cfg.get("ordmin", 0), freqlim=(0, 10), hide_poles=cfg["hide"], Fn_cov=cov)
         elif ob == "O2":
             fig, ax = plot.cluster_plot(Fn, Xi, Lab, ordmin=0, freqlim=None, hide_poles=cfg["hide"])
         else:
@@ -247,7 +251,7 @@ def replay_poles(cfg, ob, inputs):
                 pass
             res, rp = _O(), _O()
             res.Fn_poles, res.Xi_poles, res.Lab, res.Fn_poles_cov = Fn, Xi, Lab, None
-            rp.step, rp.ordmax, rp.ordmin = 1, C - 1, 0
+            rp.step, rp.ordmax, rp.ordmin = 1, C - 1, cfg.get("ordmin", 0)
             alg = object.__new__(getattr(assi if cfg["cls"].startswith("SSI") else aplscf, cfg["cls"]))
             alg.result, alg.run_params, alg.name = res, rp, "a"
             fig, ax = getattr(alg, cfg["meth"])(freqlim=None, hide_poles=cfg["hide"])
